@@ -1,3 +1,6 @@
+(* STATUS NOTE (third session): remarks of the form "NOT PROVED" in the comments below were written when the first theorems of this
+   file were stated; theorems added further down in this file supersede them.  The current status of the property is the row of
+   DESIGN.md section 14.4; the premises that remain are listed in DESIGN.md section 14.9. *)
 (* C04 — Every represented instance of a rule's left side fires.
    SECOND SESSION (EGraph/MatchComplete.v): FIRING is proved - for every substitution the searcher returns for a rule
    without condition, after apply_rewrites both instantiated sides are represented, covered and EQUAL
